@@ -65,6 +65,10 @@ func (e *Engine) arith(st *State, op token.Token, a, b Value, t types.Type, p to
 	lo, hi := intRange(bt)
 	inRange := func(x string) string { return and(sx("<=", lo, x), sx("<=", x, hi)) }
 	wrap := func(x string) Value {
+		if w == 64 && e.spec > 0 {
+			// inside a specification 64-bit arithmetic is mathematical (exact)
+			return Value{x, t}
+		}
 		if w == 64 && e.c != nil && e.c.Opts["wrap64"] != "" {
 			// `opt wrap64 on`: two's-complement wrap-around is part of the function's documented behaviour
 			return Value{e.wrapTo(x, bt), t}
